@@ -418,6 +418,19 @@ def r08_6(ctx):
                 if a[0] == "call" and "PartialEq" in a[1] and {a[2][0], a[2][1]} == {("param", 2), ("field", ("field", ("param", 1), "regex", LEAF), "original", LAZY)}:
                     cmp_ok = True
         r.ob("replace:whole-pattern-compared", cmp_ok, f.site, "the new pattern is compared with the leaf's original pattern")
+        # below a node too: Node::insert hands the value to a child holding exactly this pattern, whatever the
+        # length of the prefix they share (a pattern equal to the node's prefix is not "longer than it")
+        nf = F.method(NODE, "insert")
+        r.analysed(nf)
+        sn = Sym(nf, copies=True)
+        routed = False
+        for lp in for_loops(nf):
+            for p in lp.iteration_paths(sn):
+                eqs = [(a, v) for a, v in p.conds if a[0] == "call" and "PartialEq" in a[1] and len(a[2]) == 2 and ("param", 2) in a[2]
+                       and any(mentions(x, lambda y: y[0] == "call" and y[1] == ITEM + "::regex") and mentions_field(x, "children", NODE) for x in a[2])]
+                if eqs and eqs[0][1] == 1 and any(e[0] == "set" and e[3][0] == "agg" and e[3][2] == "Some" and mentions(e[3], lambda y: y[0] == "call" and y[1].endswith("Iterator>::next")) for e in p.events):
+                    routed = True
+        r.ob("replace:node-routes-equal-pattern", routed, nf.site, "Node::insert selects the child whose whole pattern equals the inserted one (the value stored under the same id is replaced there)")
         # UniqueRegexTreeMap::insert uses the pattern as id
         u = F.method("regex_radix_tree::tree::UniqueRegexTreeMap", "insert")
         pv = Prov(u)
@@ -426,7 +439,7 @@ def r08_6(ctx):
             if cal and cal.key() == TREE + "::insert":
                 oku = pv.operand(t["args"][1]) == ("param", 2) and pv.operand(t["args"][2]) == ("param", 2)
         r.ob("replace:unique-tree-id-is-pattern", oku, u.site, "UniqueRegexTreeMap::insert stores under id == pattern")
-    ctx.run_rule("R08.6", "(pattern, id) replacement", body, floor=4)
+    ctx.run_rule("R08.6", "(pattern, id) replacement", body, floor=5)
 
 
 def r08_7(ctx):
@@ -605,7 +618,25 @@ def r08_9(ctx):
                 r.ob("cut-in-characters:%s:%s" % (f.key.rsplit("::", 2)[-2] + "::" + f.name, cal.name), not byte_use, f.loc(span_line(t_["s"])),
                      "the character count is handed to %s" % cal.name if not byte_use else "the character count returned by common_prefix_char_size is used as a byte offset (%s): wrong for patterns with multi-byte characters" % cal.name)
         r.ob("cut-in-characters:uses", n >= 2, "", "%d uses of the cut length" % n)
-    ctx.run_rule("R08.9", "the prefix cut is applied in characters", body, floor=3)
+        # ... and it is compared with character counts only (a byte length is larger for multi-byte text)
+        m = 0
+        byte_len = lambda x: x[0] == "call" and x[1] in ("str::len", "std::string::String::len")
+        for f in F.fn_list:
+            if f.derived or not f.file.startswith("src/regex_radix_tree/") or not any(cal is not None and cal.key() == "regex_radix_tree::prefix::common_prefix_char_size" for _, _, cal in f.calls()):
+                continue
+            seen = set()
+            regions = [Sym(f, copies=True).paths()] + [lp.iteration_paths(Sym(f, copies=True)) for lp in for_loops(f)]
+            for paths in regions:
+                for p in paths:
+                    for a, v in p.conds:
+                        if a[0] == "bin" and a[1] in ("Lt", "Le", "Gt", "Ge", "Eq", "Ne") and (mentions(a[2], is_cut) or mentions(a[3], is_cut)) and a not in seen:
+                            seen.add(a)
+                            m += 1
+                            mixed = mentions(a[2], byte_len) or mentions(a[3], byte_len)
+                            r.ob("cut-in-characters:%s:compared-with-characters" % (f.key.rsplit("::", 2)[-2] + "::" + f.name), not mixed, f.site,
+                                 "a prefix size is compared with %s" % ("a character count" if not mixed else "a byte length (`len()`): for a prefix with multi-byte characters the comparison is wrong"))
+        r.ob("cut-in-characters:comparisons", m >= 2, "", "%d comparisons of prefix sizes" % m)
+    ctx.run_rule("R08.9", "the prefix cut is applied in characters", body, floor=5)
 
 
 def run(ctx):
